@@ -2,10 +2,11 @@
    (parent and child), of builtins/utils.rs _get_std_fds / print_stdout / print_stderr, and the
    POSIX reference the properties C02 / C04 / C08 compare it with.  No proofs here.
 
-   The model is of the code as it is (/repo 567a7de: the child no longer closes the numbers the
-   parent has already closed).  The record [variant] switches on the PROPOSED repairs
-   notes/C08-fix-*.patch / notes/C04-fix-*.patch one by one; [v0] (all off) is the code as it is,
-   and the registered theorems are about [v0]. *)
+   The model is of the code as it is (/repo d4ac685).  The record [variant] keeps, as switches, the
+   five behaviours that were repaired in /repo 8dc92a8, 07e8792, 219c117, 3c1f8de, d4ac685: a flag
+   that is OFF gives the code BEFORE that commit (used only for regression examples and so that
+   the theorems, which quantify over every variant, also say what each repair bought).
+   [v0] (all on) is the code as it is; the registered theorems are about [v0]. *)
 From Coq Require Import List Arith Bool.
 From Cicada Require Import Model.OsLite.
 Import ListNotations.
@@ -35,13 +36,13 @@ Definition opt_close_pair (o : option (nat * nat)) (p : proc) : proc :=
   match o with Some fds => close_pair fds p | None => p end.
 
 Record variant := mkv {
-  v_dupclose : bool;   (* C08-fix-2: close the dup()ed descriptor after dup2 in the 2>&1 / 1>&2 branches *)
-  v_bcap : bool;       (* C08-fix-3: the single-builtin path closes the capture pipes *)
-  v_capclose : bool;   (* C08-fix-4: a captured last stage with a redirected stream still closes the capture ends *)
-  v_capfail : bool;    (* C08-fix-5: a failing capture pipe() releases the stage pipes *)
-  v_bunop : bool       (* C04-fix-2: a builtin whose target cannot be opened fails with status 1 *)
+  v_dupclose : bool;   (* 8dc92a8: close the dup()ed descriptor after dup2 in the 2>&1 / 1>&2 branches *)
+  v_bcap : bool;       (* 07e8792: the single-builtin path closes the capture pipes *)
+  v_capclose : bool;   (* 219c117: a captured last stage with a redirected stream still closes the capture ends *)
+  v_capfail : bool;    (* 3c1f8de: a failing capture pipe() releases the stage pipes *)
+  v_bunop : bool       (* d4ac685: a builtin whose target cannot be opened fails with status 1 *)
 }.
-Definition v0 : variant := mkv false false false false false.
+Definition v0 : variant := mkv true true true true true.
 
 Section Run.
 Variable v : variant.
@@ -198,42 +199,46 @@ Fixpoint run_stages (pipes : list (nat * nat)) (capo cape : option (nat * nat)) 
 
 (* ---------------- builtins run in the shell: builtins/utils.rs ---------------- *)
 (* _get_std_fds: (fd_out, fd_err); the recursive call for 1>&2 looks at the REST of the list *)
+(* `1> foo.log` / `2> foo.log`: create_raw_fd_from_file; Err leaves the candidate None *)
+Definition open_cand (r : redir) (p : proc) : proc * option nat :=
+  let path := target_path (r_to r) in
+  if openable path then let '(p1, n) := p_open path (wmode (r_app r)) p in (p1, Some n)
+  else (p_openfail path (wmode (r_app r)) p, None).
+(* the candidate for descriptor 1; la = the look-ahead call _get_std_fds(&redirects[i+1..]) *)
+Definition gsf_cand1 (la : proc * option nat * option nat) (r : redir) (p : proc) : proc * option nat :=
+  match r_to r with
+  | TAmp2 =>
+    let '(p1, _o, e) := la in
+    match e with
+    | Some fd => (p1, Some fd)
+    | None => p_dup 2 p1
+    end
+  | _ => open_cand r p
+  end.
+(* the candidate for descriptor 2 *)
+Definition gsf_cand2 (out : option nat) (r : redir) (p : proc) : proc * option nat :=
+  match r_to r with
+  | TAmp1 =>
+    match out with
+    | Some fd => p_dup fd p
+    | None => (p, None)
+    end
+  | _ => open_cand r p
+  end.
+Definition oclose (o : option nat) (p : proc) : proc :=
+  match o with Some fd => p_close fd p | None => p end.
+
 Fixpoint get_std_fds (rs : list redir) (out err : option nat) (p : proc) : proc * option nat * option nat :=
   match rs with
   | [] => (p, out, err)
   | r :: rest =>
     match r_fd r with
     | F1 =>
-      let '(p, cand) :=
-        match r_to r with
-        | TAmp2 =>
-          let '(p1, _o, e) := get_std_fds rest None None p in
-          match e with
-          | Some fd => (p1, Some fd)
-          | None => let '(p2, d) := p_dup 2 p1 in (p2, d)
-          end
-        | to =>
-          let path := target_path to in
-          if openable path then let '(p1, n) := p_open path (wmode (r_app r)) p in (p1, Some n)
-          else (p_openfail path (wmode (r_app r)) p, None)
-        end in
-      let p := match out with Some fd => p_close fd p | None => p end in
-      get_std_fds rest cand err p
+      let '(p, cand) := gsf_cand1 (get_std_fds rest None None p) r p in
+      get_std_fds rest cand err (oclose out p)
     | F2 =>
-      let '(p, cand) :=
-        match r_to r with
-        | TAmp1 =>
-          match out with
-          | Some fd => let '(p1, d) := p_dup fd p in (p1, d)
-          | None => (p, None)
-          end
-        | to =>
-          let path := target_path to in
-          if openable path then let '(p1, n) := p_open path (wmode (r_app r)) p in (p1, Some n)
-          else (p_openfail path (wmode (r_app r)) p, None)
-        end in
-      let p := match err with Some fd => p_close fd p | None => p end in
-      get_std_fds rest out cand p
+      let '(p, cand) := gsf_cand2 out r p in
+      get_std_fds rest out cand (oclose err p)
     end
   end.
 
@@ -359,6 +364,16 @@ Definition std_out (o0 : obj) (n : nat) (capture : bool) (idx : nat) : obj :=
   if S idx <? n then OPipeW (PStage idx) else if capture then OPipeW PCapOut else o0.
 Definition std_err (e0 : obj) (n : nat) (capture : bool) (idx : nat) : obj :=
   if (S idx =? n) && capture then OPipeW PCapErr else e0.
+
+(* 1>&2 followed later by another redirection of descriptor 1, on a builtin that runs in the shell:
+   the look-ahead call of _get_std_fds opens / dups for that later redirection and drops the result *)
+Definition is_fd1 (r : redir) : bool := match r_fd r with F1 => true | F2 => false end.
+Fixpoint lookahead_leak (rs : list redir) : bool :=
+  match rs with
+  | [] => false
+  | r :: rest =>
+    (match r_fd r, r_to r with F1, TAmp2 => existsb is_fd1 rest | _, _ => false end) || lookahead_leak rest
+  end.
 
 (* ---------------- the known-finding classes, as decidable predicates on the plan ---------------- *)
 Definition is_dup21 (r : redir) : bool := match r_fd r, r_to r with F2, TAmp1 => true | _, _ => false end.
